@@ -1,10 +1,112 @@
 import PewDriver.Util
+import PewModel.Imzml
 open Lean
 namespace PewDriver.C05
-open PewDriver
+open PewDriver Pew.Imzml
 
-def handle (op : String) (_req : Json) : R Json := do
+def parseSpectrum (j : Json) : R Spectrum := do
+  let x ← getNat j "x"
+  let y ← getNat j "y"
+  let tic ← fld j "tic" >>= asOpt asRat
+  let mz ← getList asRat j "mz"
+  let it ← getList asRat j "it"
+  pure { x := x, y := y, tic := tic, mz := mz, it := it }
+
+def parseWidth (j : Json) : R Width := do
+  let k ← getStr j "kind"
+  let v ← getRat j "value"
+  match k with
+  | "ppm" => pure (.ppm v)
+  | "mz" => pure (.mz v)
+  | _ => throw s!"bad width kind {k}"
+
+def jTable {β} (f : β → Json) (t : List (List (Option β))) : Json :=
+  jList (jList (jOpt f)) t
+
+def jVec : List Rat → Json := jList jRat
+
+/-- specification of the mass range: it must bound every recorded m/z; reported as the extreme
+recorded values (over ALL elements, not only first/last) -/
+def allMz (specs : List Spectrum) : List Rat := specs.flatMap (·.mz)
+
+def minR : List Rat → Option Rat
+  | [] => none
+  | x :: xs => some (xs.foldl (fun a b => if b < a then b else a) x)
+
+def maxR : List Rat → Option Rat
+  | [] => none
+  | x :: xs => some (xs.foldl (fun a b => if a < b then b else a) x)
+
+/-- hypotheses of the theorems, decided: strictly increasing non-empty axes, equal lengths,
+1-based positions inside the image -/
+def hyp (size : Nat × Nat) (specs : List Spectrum) : Bool :=
+  specs.all (fun s => incrB s.mz && s.mz.length == s.it.length && !s.mz.isEmpty
+    && decide (1 ≤ s.x) && decide (1 ≤ s.y) && decide (s.x ≤ size.1) && decide (s.y ≤ size.2))
+
+/-- the returned bin edges are acceptable for the specification: strictly increasing by exactly `w`,
+starting at or below the lowest and ending (with the last bin `[b, b + w)`) above the highest m/z -/
+def stepsBy (w : Rat) : List Rat → Bool
+  | [] => true
+  | [_] => true
+  | a :: b :: r => decide (b - a = w) && stepsBy w (b :: r)
+
+def binsCover (bins : List Rat) (w : Rat) (specs : List Spectrum) : Bool :=
+  decide (0 < w) && stepsBy w bins &&
+  match bins.head?, bins.getLast?, minR (allMz specs), maxR (allMz specs) with
+  | some b0, some bl, some lo, some hi => decide (b0 ≤ lo) && decide (hi < bl + w)
+  | _, _, _, _ => false
+
+def handle (op : String) (req : Json) : R Json := do
   match op with
+  | "c05.image" =>
+    let sizeJ ← fld req "size"
+    let size ← asOpt (fun j => do
+      match (← asList asNat j) with
+      | [a, b] => pure (a, b)
+      | _ => throw "size must be [X, Y]") sizeJ
+    let specs ← getList parseSpectrum req "spectra"
+    let masses ← getList asRat req "masses"
+    let width ← fld req "width" >>= parseWidth
+    let sz := imageSize size specs
+    let ext := tabulate sz (extractImage specs masses width)
+    let extS := tabulate sz (specImage (fun s => specSpectrum s.mz s.it (windows masses width)) specs)
+    let tic := tabulate sz (ticImage specs)
+    let ticS := tabulate sz (specImage (fun s => match s.tic with | some t => t | none => s.it.sum) specs)
+    let mr := massRange specs
+    let edges := flatten (windows masses width)
+    pure (jObj [("size", jList jNat [sz.1, sz.2]),
+                ("extract_model", jTable jVec ext), ("extract_spec", jTable jVec extS),
+                ("tic_model", jTable jRat tic), ("tic_spec", jTable jRat ticS),
+                ("range_model", jList (jOpt jRat) [mr.1, mr.2]),
+                ("range_spec", jList (jOpt jRat) [minR (allMz specs), maxR (allMz specs)]),
+                ("edges", jList jRat edges),
+                ("hyp", jBool (hyp sz specs))])
+  | "c05.bins" =>
+    let sizeJ ← fld req "size"
+    let size ← asOpt (fun j => do
+      match (← asList asNat j) with
+      | [a, b] => pure (a, b)
+      | _ => throw "size must be [X, Y]") sizeJ
+    let specs ← getList parseSpectrum req "spectra"
+    let w ← getRat req "w"
+    -- the edges returned by the implementation (null when it raised): the specification is
+    -- evaluated on them; the mechanism model computes its own
+    let implBins ← fld req "impl_bins" >>= asOpt (asList asRat)
+    let sz := imageSize size specs
+    let mr := massRange specs
+    let mbins := match mr with
+      | (some lo, some hi) => arange lo (hi + w) w
+      | _ => []
+    let sbins := implBins.getD mbins
+    let model := tabulate sz (binImage specs mbins)
+    let spec := tabulate sz (specImage (fun s => binSpec s.mz s.it sbins w) specs)
+    let dns := tabulate sz (specImage (fun s => dense s.mz sbins) specs)
+    let tot := tabulate sz (specImage (fun s => s.it.sum) specs)
+    pure (jObj [("size", jList jNat [sz.1, sz.2]),
+                ("bins_model", jVec mbins), ("model", jTable jVec model),
+                ("spec", jTable jVec spec), ("dense", jTable jBool dns), ("total", jTable jRat tot),
+                ("cover", jBool (binsCover sbins w specs)),
+                ("hyp", jBool (hyp sz specs))])
   | _ => throw s!"unknown op {op}"
 
 end PewDriver.C05
